@@ -11,8 +11,8 @@ from ..sectionmachine import SectionMachine, gen_ops, NAMES, NAMES_FILE, PROBE_K
 from ..simfs import SimFS, Policy
 from .c13 import PROP as C13PROP
 
-SMALL = ["A", "a", "", "7"]
-SMALL_PROBES = ["A", "a", "", "7", "UNKNOWN", "unknown", "A:1", "a:2", "zz"]
+SMALL = ["A", "a", "", "7", "_A"]
+SMALL_PROBES = ["A", "a", "", "7", "UNKNOWN", "unknown", "A:1", "a:2", "zz", "_A", "_a", "_A:2", "_z"]
 
 
 class C15(Prop):
@@ -41,7 +41,8 @@ class C15(Prop):
             builds.append(["insert", 0, n])
         tails = [[], [["del_idx", 0]], [["del_key", 1]]]
         probes = [["probe", k] for k in SMALL_PROBES] + [["probe_int", i] for i in (-3, -1, 0, 1, 2)] + \
-                 [["probe_slice", None, None, -1], ["probe_slice", 1, None, None]] + \
+                 [["probe_slice", None, None, -1], ["probe_slice", 1, None, None], ["probe_slice", None, None, 2]] + \
+                 [["probe", k] for k in SMALL_PROBES[:4]] + \
                  [["get", k, False] for k in SMALL_PROBES] + [["del_absent", k] for k in SMALL_PROBES]
         for L in ((1, 2, 3) if tier == "thorough" else (1, 2)):
             for seq in itertools.product(builds, repeat=L):
